@@ -30,6 +30,9 @@
 struct xv_dec_rec xv_dec_log[XV_DEC_LOG];
 unsigned xv_dec_n;
 
+#ifndef XV_PCTS
+#define XV_PCTS 384
+#endif
 #ifndef XV_SNPRINTF_SCAN
 #define XV_SNPRINTF_SCAN 40
 #endif
@@ -64,18 +67,22 @@ static size_t xv_put_dec (char *str, size_t size, size_t pos, unsigned long long
     }
   else
     {
-      unsigned char nbig = nondet_uchar ();
-      __CPROVER_assume (nbig >= 11 && nbig <= 20);
-      unsigned __int128 acc = 0;
+      /* 11..20 digits (only sha1crypt prints such numbers: whatever
+         iteration count strtoul accepted).  The number of digits is exact
+         (comparisons with powers of ten); the digit values are left
+         arbitrary - an over-approximation of snprintf - except that equal
+         values print equal digits (snprintf is a function of its
+         arguments).  No 128-bit decimal arithmetic for the solver.  */
+      nd = xv_dec_ndigits20 (v);
       for (unsigned i = 0; i < 20; i++)   /* XV_UNWIND 20 */
         {
           d[i] = nondet_uchar ();
           __CPROVER_assume (d[i] <= 9);
-          if (i < nbig)
-            acc = acc * 10 + d[i];
         }
-      __CPROVER_assume (acc == (unsigned __int128) v);
-      nd = nbig;
+      for (unsigned r = 0; r < XV_DEC_LOG; r++)
+        if (r < xv_dec_n && xv_dec_log[r].v == v)
+          for (unsigned i = 0; i < 10; i++)   /* XV_UNWIND 10 */
+            __CPROVER_assume (d[i] == xv_dec_log[r].dig[i] && d[10 + i] == xv_dec_log[r].digx[i]);
     }
   __CPROVER_assume (nd == 1 || d[0] != 0);   /* canonical form; implied, stated to spare the solver the arithmetic */
   /* A-dec: a number that strtoul parsed from a canonical digit string prints
@@ -92,7 +99,10 @@ static size_t xv_put_dec (char *str, size_t size, size_t pos, unsigned long long
       xv_dec_log[xv_dec_n].v = v;
       xv_dec_log[xv_dec_n].nd = nd;
       for (unsigned i = 0; i < 10; i++)   /* XV_UNWIND 10 */
-        xv_dec_log[xv_dec_n].dig[i] = d[i];
+        {
+          xv_dec_log[xv_dec_n].dig[i] = d[i];
+          xv_dec_log[xv_dec_n].digx[i] = big ? d[10 + i] : 0;
+        }
       xv_dec_n++;
     }
   /* digit i goes to pos + i: keeps the indices constant when pos is */
@@ -113,9 +123,11 @@ static size_t xv_put_str (char *str, size_t size, size_t pos, const char *s, siz
       size_t n = reglen < maxlen ? reglen : maxlen;
       size_t room = (size > 0 && pos < size - 1) ? size - 1 - pos : 0;
       size_t c = n < room ? n : room;
-      /* bounded element copy (the output buffers are at most 384 bytes) */
-      __CPROVER_assert (c <= 384, "snprintf model: at most 384 characters copied by %.*s");
-      for (size_t i = 0; i < 384; i++)   /* XV_UNWIND 384 */
+      /* bounded element copy (the output buffers are at most 384 bytes; a job
+         whose input domain is smaller lowers XV_PCTS - every symbolic-index
+         access to the same array costs the solver quadratically) */
+      __CPROVER_assert (c <= XV_PCTS, "snprintf model: no more than XV_PCTS characters copied by %.*s (domain bound of the job)");
+      for (size_t i = 0; i < XV_PCTS; i++)   /* XV_UNWIND PCTS */
         if (i < c)
           str[pos + i] = s[i];
       return pos + n;
